@@ -66,6 +66,26 @@ def layout_case(c):
     else:
         t = torch.randint(0, 16, (N, K), generator=gen, dtype=torch.uint8)
     r = {"ok": True, "t": tens(t)}
+    # the packers must accept the 4-bit matrix in any integer dtype (the reference packers are fed int32), must not
+    # modify it, and must return a tensor of their own (no aliasing of the argument)
+    pure = {}
+    for dt in (torch.uint8, torch.int32, torch.int64, torch.int16):
+        x = t.to(dt)
+        keep = x.clone()
+        fns = [("pack", lambda a: packed.pack(a, reorder=False), lambda q: packed.unpack(q, reorder=False)),
+               ("pack_reorder", lambda a: packed.pack(a, reorder=True), lambda q: packed.unpack(q, reorder=True))]
+        if N % 4 == 0 and K % 64 == 0:
+            fns.append(("pack_v2", packed.pack_v2, packed.unpack_v2))
+        for name, f, g in fns:
+            try:
+                q = f(x)
+                ok = bool(torch.equal(x, keep)) and bool(torch.equal(g(q).to(torch.int64), keep.to(torch.int64)))
+                alias = q.untyped_storage().data_ptr() == x.untyped_storage().data_ptr()
+                pure[f"{name}/{str(dt)[6:]}"] = "ok" if ok and not alias else ("input modified or round trip differs" if not ok else "result aliases the input")
+            except Exception as ex:  # noqa: BLE001
+                pure[f"{name}/{str(dt)[6:]}"] = "raised " + type(ex).__name__
+            x = keep.clone()
+    r["pure"] = pure
     p1 = packed.pack(t, reorder=False)
     p1r = packed.pack(t, reorder=True)
     r["p1"], r["p1r"] = tens(p1), tens(p1r)
@@ -93,6 +113,11 @@ def repr_case(c):
     gen = torch.Generator().manual_seed(c["seed"])
     out_f, in_f = c["out"], c["in"]
     w = (torch.randn(out_f, in_f, generator=gen) * c.get("std", 1.0) + c.get("mean", 0.0)).to(torch.float16)
+    # degenerate groups (pruned / padded blocks): all-zero, constant, tiny
+    for kind, (row, g) in c.get("degenerate", []):
+        row, g = row % out_f, g % (in_f // 128)
+        blk = {"zero": 0.0, "const": 0.75, "tiny": 1e-7}[kind]
+        w[row, g * 128:(g + 1) * 128] = blk
     std = quantize_weight(w, qint4, axis=0, group_size=128)
     assert type(std) is QBitsTensor
     codes = std._data.unpack()
@@ -107,6 +132,8 @@ def repr_case(c):
     mag = ungroup((s * codes.double()).abs() + (s * z).abs(), axis=0, orig_shape=std.shape)
     u = 2.0 ** -11
     err = (d_awq - d_std).abs()
+    r["deq_finite"] = bool(torch.isfinite(d_awq).all()) and bool(torch.isfinite(d_std).all())
+    err = torch.where(torch.isfinite(err), err, torch.full_like(err, float("inf")))
     r["deq_ratio"] = float((err / (2 * u * mag + 2.0 ** -24)).max())
     r["deq_worst"] = {"err": float(err.max()), "mag": float(mag.max())}
     r["awq_dtype"] = str(awq.dtype)
